@@ -135,6 +135,22 @@ Proof.
     rewrite Hu, Hc. ring.
 Qed.
 
+Lemma reversed_entry_b (M M' : mat) (d e : R) :
+  mmul M (mmul Jm (mmul (transfer d) M')) = mmul Jm (transfer e) ->
+  mdet M <> 0 ->
+  mb M' = (md M * e + mb M - d * (mc M * e + ma M)) / mdet M.
+Proof.
+  intros H Hdet. destruct (reversed_entries M M' d e H Hdet) as (_ & Ed & _).
+  revert H Ed. destruct M as [A B C D], M' as [a' b' c' d']. unfold mmul, Jm, transfer, mdet in *. cbn [ma mb mc md] in *.
+  intros H Ed. injection H as E1 E2 E3 E4.
+  assert (Hv : (b' + d * d') * (A * D - B * C) = D * e + B).
+  { assert (H2 := f_equal (fun x => D * x) E2). assert (H4 := f_equal (fun x => B * x) E4). cbv beta in H2, H4. lra. }
+  assert (Hd' : d' * (A * D - B * C) = C * e + A).
+  { rewrite Ed. field. exact Hdet. }
+  transitivity (((b' + d * d') * (A * D - B * C) - d * (d' * (A * D - B * C))) / (A * D - B * C)); [field; exact Hdet|].
+  rewrite Hv, Hd'. reflexivity.
+Qed.
+
 (** ** front focal length and front focal distance of the model from the FORWARD system matrix *)
 Lemma rev_head_last {A B} (f : A -> B) (l : list A) (d : A) (b : B) :
   l <> [] -> match rev l with s :: _ => f s | [] => b end = f (last l d).
@@ -272,4 +288,78 @@ Proof.
   assert (Hc : mc (sysmat [mkAS 0 (/ 50) 1 1.5 false false; mkAS 5 (/ (-50)) 1.5 1 false false; mkAS 50 0 1 1 false false] (0 - 1)) <> 0).
   { cbn. unfold surf_matrix, mmul, refraction, transfer, mid; cbn. intro E. field_simplify in E. all: try lra. }
   destruct (H Hd Hc) as [E1 E2]. eexists; eexists; split; [exact E1|exact E2].
+Qed.
+
+(** ** entrance pupil position from the FORWARD matrix of the surfaces in front of the stop:
+    with [[A B][C D]] that matrix (from the plane z0, a distance d in front of the first vertex) and e the gap between
+    the last of those surfaces and the stop, the stop plane is reached by [[A + eC, B + eD] ...] and
+    EPL = (B + eD)/(A + eC) - d  (the object-space image of the stop centre, measured from the first vertex) *)
+Lemma skipn_app_cons {A} (l1 : list A) (x : A) (l2 : list A) : skipn (S (length l1)) (l1 ++ x :: l2) = l2.
+Proof. induction l1 as [|a l1 IH]; [reflexivity|]. cbn [length app skipn]. exact IH. Qed.
+
+Theorem EPL_classical pss aobj pre stop post zl k z0 :
+  let ass := aobj :: pre ++ stop :: post in
+  Forall2 wf_surf (inverted pss) (arev zl ass) ->
+  a_obj aobj = true ->
+  Forall nonobj pre -> pre <> [] ->
+  stop_index pss = Some (S k) ->
+  stop_index (inverted pss) = Some (length post) ->
+  pos (O:=XOps) (inverted pss) (length post) = Fin (zl - a_z stop) ->
+  let M := sysmat pre z0 in
+  let e := a_z stop - endz pre z0 in
+  let d := dfirst zl (zl - a_z stop) pre z0 in
+  mdet M <> 0 -> mc M * e + ma M <> 0 ->
+  EPL pss = Fin ((md M * e + mb M) / (mc M * e + ma M) - d).
+Proof.
+  intros ass HW Hobj Hno Hne Hs Hsi Hpos M e d Hdet Hden.
+  assert (Esk : skipn (S (length post)) (arev zl ass) = arev zl pre ++ [aobj]).
+  { unfold arev, ass. cbn [rev]. rewrite rev_app_distr. cbn [rev]. rewrite !map_app. cbn [map].
+    rewrite <- !app_assoc. cbn [app].
+    replace (length post) with (length (map (ainv zl) (rev post))) by (rewrite map_length, rev_length; reflexivity).
+    rewrite skipn_app_cons. unfold ainv at 2. rewrite Hobj. reflexivity. }
+  set (zs := zl - a_z stop) in *.
+  set (M' := sysmat (arev zl pre) zs).
+  assert (Hm : sysmat (skipn (S (length post)) (arev zl ass)) zs = M').
+  { rewrite Esk, sysmat_app. unfold surf_matrix. rewrite Hobj. apply mmul_mid_l. }
+  pose proof (reversed_system_matrix zl zs pre z0 Hno) as HR. fold M in HR. fold M' in HR.
+  replace (zl - lastz pre z0 - zs) with e in HR by (unfold e, zs, lastz; ring).
+  fold d in HR.
+  destruct (reversed_entries M M' d e HR Hdet) as (_ & Ed & _).
+  pose proof (reversed_entry_b M M' d e HR Hdet) as Eb.
+  assert (Hd' : md M' <> 0).
+  { rewrite Ed. unfold Rdiv. apply Rmult_integral_contrapositive_currified; [exact Hden|].
+    apply Rinv_neq_0_compat, Hdet. }
+  assert (Hnes : skipn (S (length post)) (arev zl ass) <> []).
+  { rewrite Esk. destruct (arev zl pre); discriminate. }
+  pose proof (EPL_from_matrix pss ass zl k (length post) zs HW Hs Hsi Hnes Hpos) as HE.
+  cbv zeta in HE. rewrite Hm in HE. rewrite (HE Hd'). f_equal.
+  rewrite Eb, Ed. field. split; assumption.
+Qed.
+
+(** non-vacuity: singlet with the stop on its SECOND surface *)
+Definition stop2_ps : list (psurf XOps) :=
+    [mkPS (O:=XOps) (Fin 0) (Fin 0) NInf (Fin 0) (Fin 0) (Fin 0) PInf (Fin 1) (Fin 1) false false true;
+     mkPS (O:=XOps) (Fin 0) (Fin 0) (Fin 0) (Fin 0) (Fin 0) (Fin 0) (Fin 50) (Fin 1) (Fin 1.5) false false false;
+     mkPS (O:=XOps) (Fin 0) (Fin 0) (Fin 5) (Fin 0) (Fin 0) (Fin 0) (Fin (-50)) (Fin 1.5) (Fin 1) false true false;
+     mkPS (O:=XOps) (Fin 0) (Fin 0) (Fin 50) (Fin 0) (Fin 0) (Fin 0) PInf (Fin 1) (Fin 1) false false false].
+Example stop2_wf : Forall2 wf_surf stop2_ps singlet_as.
+Proof.
+  repeat constructor; unfold curv; try (destruct (Req_EM_T _ _); [lra|reflexivity]); try lra; reflexivity.
+Qed.
+Example stop2_EPL : exists v, EPL stop2_ps = Fin v.
+Proof.
+  assert (HWI : Forall2 wf_surf (inverted stop2_ps) (arev 50 singlet_as)).
+  { apply wf_inverted; [exact stop2_wf| |reflexivity]. repeat constructor; cbn; intros; try discriminate; lra. }
+  pose proof (EPL_classical stop2_ps (mkAS 0 0 1 1 false true) [mkAS 0 (/ 50) 1 1.5 false false]
+                (mkAS 5 (/ (-50)) 1.5 1 false false) [mkAS 50 0 1 1 false false] 50 1 (-1) HWI eq_refl) as H.
+  cbv zeta in H.
+  assert (Hno : Forall nonobj [mkAS 0 (/ 50) 1 1.5 false false]).
+  { repeat constructor; cbn; intros; lra. }
+  specialize (H Hno ltac:(discriminate) eq_refl eq_refl).
+  assert (Hp : pos (O:=XOps) (inverted stop2_ps) (length [mkAS 50 0 1 1 false false]) = Fin (50 - a_z (mkAS 5 (/ (-50)) 1.5 1 false false))).
+  { cbn. first [reflexivity | f_equal; lra]. }
+  specialize (H Hp).
+  eexists. apply H.
+  - cbn. unfold surf_matrix, mmul, refraction, transfer, mid, mdet; cbn. intro E. field_simplify in E. all: try lra.
+  - cbn. unfold surf_matrix, mmul, refraction, transfer, mid; cbn. intro E. field_simplify in E. all: try lra.
 Qed.
